@@ -157,13 +157,16 @@ theorem errorAll_spec (s : St κ β) (e : Err) (hout : s.outStopped = false)
     ∧ (∀ p ∈ s.writers, stoppedAt (errorAll s e) p.2)
     ∧ escs (errorAll s e) = escs s
     ∧ (∃ l, (errorAll s e).out = s.out ++ l) := by
-  have h1 := fr_termAll s (.error e)
-  have hso : (termAll s (Notif.error e : Notif β)).outStopped = false := by rw [h1.outS]; exact hout
-  have h2 : Fr (emit { termAll s (Notif.error e : Notif β) with outStopped := true } (.outer (.error e))) (errorAll s e) := by
+  have h0 : Fr s ({ s with failed := true } : St κ β) := fr_fields s _ rfl rfl rfl rfl
+  have h1 : Fr s (termAll ({ s with failed := true } : St κ β) (.error e)) := h0.trans (fr_termAll _ (.error e))
+  have hso : (termAll ({ s with failed := true } : St κ β) (Notif.error e : Notif β)).outStopped = false := by
+    rw [h1.outS]; exact hout
+  have h2 : Fr (emit { termAll ({ s with failed := true } : St κ β) (Notif.error e : Notif β) with outStopped := true }
+      (.outer (.error e))) (errorAll s e) := by
     unfold errorAll outerTerm; rw [if_neg (by simp [hso])]; exact fr_rcdDispose _
-  have hst : ∀ p ∈ s.writers, stoppedAt (termAll s (Notif.error e : Notif β)) p.2 := by
+  have hst : ∀ p ∈ s.writers, stoppedAt (termAll ({ s with failed := true } : St κ β) (Notif.error e : Notif β)) p.2 := by
     intro p hp
-    exact foldl_writerTerm_stops _ s _ (fun g hg => by
+    exact foldl_writerTerm_stops _ ({ s with failed := true } : St κ β) _ (fun g hg => by
       obtain ⟨q, hq, rfl⟩ := List.mem_map.1 hg; exact hw q hq) p.2 (List.mem_map.2 ⟨p, hp, rfl⟩)
   refine ⟨by rw [h2.outS]; rfl, ?_, ?_, ?_, ?_⟩
   · obtain ⟨l, hl⟩ := h2.grow; rw [hl]; simp [emit]
